@@ -353,6 +353,13 @@ func VfC04_Migration() {
 		nd.Assert(vfSameReply(got, want), "the reply equals the reply of a single Redis server, during every phase of a migration")
 		nd.Assert(vfForwarded(clients) == 0, "nothing is left behind on any backend connection")
 		nd.Assert(cl.a.execs+cl.b.execs == total, "each per-key command is executed exactly once on the node that accepts it")
+		// request statistics are conserved whatever number of redirections the command went through
+		d, us := p.stats.Downstream, p.u.stats
+		nd.Assert(d.RqTotal.Value() == d.RqSuccessTotal.Value()+d.RqFailureTotal.Value(), "downstream total requests = success + failure at quiescence")
+		nd.Assert(us.RqTotal.Value() == us.RqSuccessTotal.Value()+us.RqFailureTotal.Value(), "upstream total requests = success + failure at quiescence")
+		if h, ok := p.findHandler(string(body.Array[0].Text)); ok {
+			nd.Assert(h.stats.Total.Value() == h.stats.Success.Value()+h.stats.Error.Value(), "per-command total = success + error at quiescence")
+		}
 		if stable {
 			nd.Assert(cl.redirects == before, "with a loaded routing table and a stable layout no command is redirected")
 			nd.Cover("stable-layout")
